@@ -17,7 +17,7 @@ theorem c12_isolation (db : DbL) (items : List (KsId × LOp)) (b : KsId)
     have hkid : k.id = b := by simpa using List.find?_some hf
     rw [replayKs_abs]
     have : (List.filter (fun r => decide (r.ks = k.id))
-        (items.map fun (x : KsId × LOp) => (⟨db.seqno, x.1, x.2⟩ : Rec))) = [] := by
+        (items.map fun (x : KsId × LOp) => (⟨db.seqno, x.1, x.2, false⟩ : Rec))) = [] := by
       rw [List.filter_eq_nil_iff]
       intro r hr
       obtain ⟨it, hit, rfl⟩ := List.mem_map.mp hr
